@@ -25,6 +25,8 @@ static QJsonObject op_json(const FOp &o)
             j["days"] = o.days;
         if (o.wj)
             j["wj"] = o.wj;
+        if (o.rmobst)
+            j["rmobst"] = o.rmobst;
         if (o.to)
             j["to"] = o.to;
     }
@@ -52,6 +54,7 @@ static FOp op_from(const QJsonObject &j)
     o.ms = (int64_t)j["ms"].toDouble();
     o.days = j["days"].toInt();
     o.wj = j["wj"].toInt();
+    o.rmobst = j["rmobst"].toInt();
     o.to = j["to"].toInt();
     o.crash_b = j.contains("crash_b") ? j["crash_b"].toInt() : -1;
     o.crash_torn = j["crash_torn"].toInt();
@@ -430,6 +433,17 @@ FPlan generate(const std::string &prop, const std::string &tier, uint64_t seed)
     {
         // wall-clock steps (the clock is set, or the machine slept over midnight): in a quarter of the plans each day
         // change is, with probability 1/2, a step of the wall clock only. Own stream: other choices stay as they were.
+        Rng r4(sim::mix(seed, 0x0b57ac1eull));
+        if (p.obstacle > 0)
+            for (auto &op : p.ops)
+                if (op.k == "restart" && r4.chance(1, 2))
+                    op.rmobst = 1;
+        // C08: a rotated file beyond 4 MiB now and then (pre-existing content; quick tier too)
+        if (prop == "C08" && r4.chance(1, 300)) {
+            p.pre_bytes = (4 << 20) + (int)r4.range(1, 2 << 20);
+            if (p.pre_age_days == 0 && r4.chance(1, 2))
+                p.pre_age_days = 1;
+        }
         Rng r3(sim::mix(seed, 0x57e9c10cull));
         if (r3.chance(1, 4))
             for (auto &op : p.ops)
